@@ -561,6 +561,9 @@ def build():
     sev.set_sig('R11', 'fn sample_ext_vec<BF, EF: ExtX>(&mut self, circuit: &mut CircuitBuilder<EF>, count: usize) -> Vec<Target>')
     sev.rewrite_re('R6', r'\(0\.\.count\)\s*\.map\(\|_\| self\.sample_ext\(circuit\)\)\s*\.collect\(\)',
                    '{ let mut out_: Vec<Target> = Vec::new(); for k_ in 0..count { let t_ = self.sample_ext::<BF, EF>(circuit); out_.push(t_); } out_ }', min_count=0)
+    # `vec![e; n]` evaluates e ONCE and copies it: normalised to that meaning (R6), so a sampler written that way is judged by the contract
+    sev.rewrite_re('R6', r'vec!\[\s*self\.sample_ext\(circuit\)\s*;\s*count\s*\]',
+                   '{ let e_ = self.sample_ext::<BF, EF>(circuit); vec_repeat_(e_, count) }', min_count=0)
     sev.requires('inv', 'old(self).inv(old(circuit))')
     sev.ensures('refines_native_sample_algebra_elements_state', 'final(self).abs(final(circuit)) == n_sample_ext_many_state(old(self).abs(old(circuit)), count as nat, sp_dim::<EF>(), RATE as nat)')
     sev.ensures('returns_native_sample_algebra_elements', 'final(circuit).has_all(ret@) && final(circuit).vals_of(ret@) == n_sample_ext_many_vals(old(self).abs(old(circuit)), count as nat, sp_dim::<EF>(), RATE as nat)')
@@ -580,6 +583,13 @@ def build():
                 assert(circuit.vals_of(out_@) =~= circ_b.vals_of(cs0).push(circuit.val(t_)));
             }''')
 
+    u.text("""verus! {
+/// `vec![e; n]` (R6): n copies of the once-evaluated element
+#[verifier::external_body]
+pub fn vec_repeat_(e: Target, n: usize) -> (ret: Vec<Target>)
+    ensures ret@.len() == n, forall|i: int| 0 <= i < n ==> ret@[i] == e,
+{ unimplemented!() }
+}""")
     u.text('verus! {\nimpl<const WIDTH: usize, const RATE: usize, C: ChallengerPermConfig> CircuitChallenger<WIDTH, RATE, C> {')
     for f in (n, i, d, o, s, c, oe, se, sb, pw, os_, oes, sev):
         u.emit(f)
